@@ -241,7 +241,10 @@ def run(tier: str) -> int:
         if tier == 'quick' and name.startswith(('example_SBT',)):
             continue
         jobs.append((f'example:{name}', text))
-    out = sim.run_many(jobs, 'harness.c03:project')
+    # each of a seeded choice of the jobs once more, followed in the same process by neighbours that restate ONE of its figures: a value
+    # kept from one run for the next (a memo keyed by too few arguments, a mutated default) shows in the neighbour's own trace
+    chains = sim.neighbour_chains(jobs, 10 if tier == 'quick' else 60, 3, seed() * 101 + 3, prefer=('Reservoir Depth', 'Number of Production Wells', 'Number of Injection Wells', 'Well Drilling and Completion Capital Cost Adjustment Factor', 'Surface Plant Capital Cost Adjustment Factor'))
+    out = sim.run_many(jobs, 'harness.c03:project') + sim.run_chains(chains, 'harness.c03:project')
     counts = validate(res, out)
     for need in ('C03_wellfield', 'C03_capex_sum', 'C03_capex_override', 'C03_oam_sum', 'C03_oam_override', 'C03_itc',
                  'C03_fixed_well', 'C03_fixed_stim', 'C03_fixed_plant', 'C03_fixed_oamplant', 'plant:ABSORPTION_CHILLER',
